@@ -58,6 +58,8 @@ func cmdRun(args []string) {
 	prop := fs.String("prop", "", "property id for known findings")
 	concAlloc := fs.Bool("concalloc", false, "case-split allocation sizes")
 	opaque := fs.Bool("opaquefmt", false, "opaque Sprintf")
+	params := fs.String("params", "", "k=v,k=v harness parameters")
+	incrMs := fs.Int("incrms", 0, "incremental solver timeout (ms)")
 	noReplay := fs.Bool("noreplay", false, "skip native replay")
 	if len(args) < 1 {
 		usage()
@@ -80,6 +82,22 @@ func cmdRun(args []string) {
 		}
 		if *timeout > 0 {
 			spec.TimeoutSec = *timeout
+		}
+	}
+	if *incrMs > 0 {
+		spec.IncrMs = *incrMs
+	}
+	if *cvc {
+		spec.PreferCVC5 = true
+	}
+	if *params != "" {
+		if spec.Params == nil {
+			spec.Params = map[string]int{}
+		}
+		for _, kv := range strings.Split(*params, ",") {
+			p := strings.SplitN(kv, "=", 2)
+			v, _ := strconv.ParseInt(p[1], 0, 64)
+			spec.Params[p[0]] = int(v)
 		}
 	}
 	known := loadKnown(ld.verif)
